@@ -29,7 +29,11 @@ func (x *Exec) runGhost(st *State, stmts []GhostStmt, where string, n ast.Node) 
 		env := x.specEnv(st)
 		switch gs.Kind {
 		case "assert":
-			x.assert(st, x.safeSpec(env, gs.Expr, where), "ghost-assert", fmt.Sprintf("%s:%d", where, i), n, gs.Raw)
+			id := fmt.Sprintf("%s:%d", where, i)
+			if gs.Label != "" {
+				id = where + ":" + gs.Label
+			}
+			x.assert(st, x.safeSpec(env, gs.Expr, where), "ghost-assert", id, n, gs.Raw)
 		case "assume":
 			x.c().note("assume in " + x.fullKey + " at " + where + ": " + gs.Raw)
 			x.assume(st, x.safeSpec(env, gs.Expr, where))
@@ -162,6 +166,11 @@ func (x *Exec) call(st *State, call *ast.CallExpr) []Term {
 	} else {
 		q = x.exprText(call.Fun) // calls through function values are anchored by their source text
 	}
+	if x.anchorsHit == nil {
+		x.anchorsHit = map[string]bool{}
+	}
+	x.anchorsHit["before@"+q] = true
+	x.anchorsHit["after@"+q] = true
 	x.runGhost(st, x.ct.CallGhost["before@"+q], "before@"+q, call)
 	rs := x.callInner(st, call)
 	if gs := x.ct.CallGhost["after@"+q]; len(gs) > 0 {
@@ -893,19 +902,32 @@ func (x *Exec) isAscendingLess(sl ast.Expr, fn ast.Expr) bool {
 	return li != nil && ri != nil && li.Name == names[0] && ri.Name == names[1] && x.exprText(l.X) == want && x.exprText(r.X) == want
 }
 
-// sortedPermutation: a fresh slice that is a non-strictly ascending permutation of cur (witnessed by an injective index map).
+// sortedPermutation: a fresh slice that is a non-strictly ascending permutation of cur, witnessed by the
+// global position function sortw(a, b, i) = "position in b of the element a[i]" (spec builtin sortpos).
 func (x *Exec) sortedPermutation(cur Term) Term {
 	c := x.c()
 	r := c.fresh("sorted", cur.Sort)
 	n := c.slLen(cur)
-	perm := c.fresh("perm", c.arrSort(sortInt, sortInt))
-	inv := c.fresh("perminv", c.arrSort(sortInt, sortInt))
+	fn := c.sortwFn(cur.Sort)
+	ra, ca := c.slArr(r).S, c.slArr(cur).S
+	perm := func(a string) string { return fmt.Sprintf("(%s %s %s %s)", fn, ra, ca, a) }
+	inv := func(b string) string { return fmt.Sprintf("(%s %s %s %s)", fn, ca, ra, b) }
 	c.axiom(tEq(c.slLen(r), n))
-	c.axiom(Term{S: fmt.Sprintf("(forall ((a Int) (b Int)) (=> (and (<= 0 a) (< a b) (< b %s)) (<= (select %s a) (select %s b))))", n.S, c.slArr(r).S, c.slArr(r).S), Sort: sortBool})
-	c.axiom(Term{S: fmt.Sprintf("(forall ((a Int)) (! (=> (and (<= 0 a) (< a %s)) (and (<= 0 (select %s a)) (< (select %s a) %s) (= (select %s a) (select %s (select %s a))) (= (select %s (select %s a)) a))) :pattern ((select %s a))))", n.S, perm.S, perm.S, n.S, c.slArr(r).S, c.slArr(cur).S, perm.S, inv.S, perm.S, c.slArr(r).S), Sort: sortBool})
+	c.axiom(Term{S: fmt.Sprintf("(forall ((a Int) (b Int)) (=> (and (<= 0 a) (< a b) (< b %s)) (<= (select %s a) (select %s b))))", n.S, ra, ra), Sort: sortBool})
+	c.axiom(Term{S: fmt.Sprintf("(forall ((a Int)) (! (=> (and (<= 0 a) (< a %s)) (and (<= 0 %s) (< %s %s) (= (select %s a) (select %s %s)) (= %s a))) :pattern ((select %s a)) :pattern (%s)))", n.S, perm("a"), perm("a"), n.S, ra, ca, perm("a"), inv(perm("a")), ra, perm("a")), Sort: sortBool})
 	// every input position is the image of an output position
-	c.axiom(Term{S: fmt.Sprintf("(forall ((b Int)) (! (=> (and (<= 0 b) (< b %s)) (and (<= 0 (select %s b)) (< (select %s b) %s) (= (select %s (select %s b)) b))) :pattern ((select %s b))))", n.S, inv.S, inv.S, n.S, perm.S, inv.S, c.slArr(cur).S), Sort: sortBool})
-	c.axiom(Term{S: fmt.Sprintf("(forall ((a Int) (b Int)) (! (=> (and (<= 0 a) (< a b) (< b %s)) (not (= (select %s a) (select %s b)))) :pattern ((select %s a) (select %s b))))", n.S, perm.S, perm.S, perm.S, perm.S), Sort: sortBool})
+	c.axiom(Term{S: fmt.Sprintf("(forall ((b Int)) (! (=> (and (<= 0 b) (< b %s)) (and (<= 0 %s) (< %s %s) (= (select %s b) (select %s %s)) (= %s b))) :pattern ((select %s b)) :pattern (%s)))", n.S, inv("b"), inv("b"), n.S, ca, ra, inv("b"), perm(inv("b")), ca, inv("b")), Sort: sortBool})
 	r.Go = cur.Go
 	return r
+}
+
+// sortwFn declares the position-witness function of sorted permutations for a slice sort.
+func (c *Ctx) sortwFn(sl *Sort) string {
+	as := c.arrSort(sortInt, sl.Elem)
+	fn := "sortw." + sanitize(sl.Name)
+	if !c.declared[fn] {
+		c.declared[fn] = true
+		c.emit(fmt.Sprintf("(declare-fun %s (%s %s Int) Int)", fn, as.Name, as.Name))
+	}
+	return fn
 }
